@@ -94,7 +94,9 @@ func (p *Prog) loadRawSpecs(path string) error {
 		j := strings.Index(text[i:], "}}")
 		name := text[i+2 : i+j]
 		val := "0"
-		if obj := p.pkg.Pkg.Scope().Lookup(name); obj != nil {
+		if strings.HasPrefix(name, "str:") {
+			val = p.w.StrLit(strings.TrimPrefix(name, "str:")).Head
+		} else if obj := p.pkg.Pkg.Scope().Lookup(name); obj != nil {
 			if c, ok := obj.(*types.Const); ok {
 				val = c.Val().ExactString()
 			}
@@ -696,4 +698,33 @@ func heapEqExcept(hf, h0 *Term, fresh []*Term) *Term {
 		t = Store(t, r, Select(h0, r))
 	}
 	return Eq(t, h0)
+}
+
+// functionTable returns the value of functionCaller.functionTable built by newFunctionCaller
+// (obtained by executing the constructor symbolically, like a package initialiser).
+func (p *Prog) functionTable() *Term {
+	if p.fnTable != nil {
+		return p.fnTable
+	}
+	fn := p.funcs["newFunctionCaller"]
+	if fn == nil {
+		return nil
+	}
+	ex := &Exec{p: p, fn: fn, fname: "newFunctionCaller", nameCt: map[string]int{}, pure: true, entryParams: map[string]*GVal{}, freshRefs: map[*Term]bool{}}
+	ex.entry = &State{cells: map[*Cell]*Term{}, heap: map[string]*Term{}, ghost: map[string]*Term{}}
+	fr := ex.newFrame(fn, TTrue, "")
+	fr.top = true
+	fr.run(nil, ex.entry.clone())
+	if len(fr.rets) != 1 || len(fr.rets[0].vals) != 1 {
+		return nil
+	}
+	ex.st = fr.rets[0].st
+	ref := fr.term(fr.rets[0].vals[0])
+	h := ex.st.heap["functionCaller.functionTable"]
+	if h == nil {
+		return nil
+	}
+	p.fnTable = Select(h, ref)
+	p.fnTableNotes = ex.unsupported
+	return p.fnTable
 }
